@@ -407,7 +407,7 @@ class Pass1(CompilePass):
         self.compilation.user_types[node.name] = node
 
     def process_else_if_pre(self, node):
-        if not any(isinstance(p, IfBlock) for p in node.parents()):
+        if not isinstance(node.parent, IfBlock):
             raise CompileError(
                 EC.ELSE_WITHOUT_IF,
                 'ELSEIF outside IF block',
@@ -428,7 +428,7 @@ class Pass1(CompilePass):
                 node=node)
 
     def process_else_pre(self, node):
-        if not any(isinstance(p, IfBlock) for p in node.parents()):
+        if not isinstance(node.parent, IfBlock):
             raise CompileError(
                 EC.ELSE_WITHOUT_IF,
                 'ELSE outside IF block',
